@@ -82,6 +82,7 @@ def station_ds(g):
 
 def station_observe(ds):
     out = {}
+    out["coords"] = (np.asarray(ds.lon.values, float).copy(), np.asarray(ds.lat.values, float).copy(), np.asarray(ds.efth.values, float).copy())
     for name, kw in (("nearest", dict(method="nearest", tolerance=3.0)), ("idw", dict(method="idw", tolerance=30.0, max_sites=2)),
                      ("bbox", dict(method="bbox", tolerance=1.0))):
         try:
@@ -108,6 +109,10 @@ def station_histories(ctx, hist):
                 ds.spec
             elif a == "call_other":
                 ds.spec.sel([9.0], [5.5], method="nearest", tolerance=5.0)
+                try:
+                    ds.spec.sel([-130.0, -100.0], [20.0, 40.0], method="bbox", tolerance=0.0)     # a box written in [-180,180]
+                except ValueError:
+                    pass
             elif a == "set_dir":
                 cg = arg
                 ds["lon"] = (("site",), STATION_LONS[cg].copy())
